@@ -1,5 +1,8 @@
 import FormulaeModel.Spec.C09
 import FormulaeModel.Generated.Tables
+import FormulaeModel.Proofs.PipelineUsed
+import FormulaeModel.Model.Scanner
+import FormulaeModel.Model.Parser
 /-
 C09 — theorems about the model of the missing-value step and of `var_names`.
 -/
@@ -319,5 +322,33 @@ example :
   decide
 
 theorem actions_tie : Generated.naActions = Spec.C09.documentedActions := by decide
+
+-- ---------------------------------------------------------------------------------------------
+-- which variables a formula uses: the resolved model, not the text
+-- ---------------------------------------------------------------------------------------------
+/-- the used variables of a formula text under the two readings: as the code computes them
+(`Model.var_names` of the resolved model, `Pipeline.usedVars`), as the specification reads the
+statement (variables of the terms of the denotation, `Spec.C09.usedVars`), and as written
+(`NA.formulaVars`, every atom at a term position) -/
+def readings (s : String) : Option (List String × List String × List String) :=
+  match Scanner.scan s.toList true with
+  | .ok ts =>
+    (match Parser.parse Generated.parserTable ts with
+     | .ok e => some (Pipeline.usedVars Generated.resolverOps e, Spec.C09.usedVars e, formulaVars e)
+     | .error _ => none)
+  | .error _ => none
+
+/-- **The proved pipeline is the executed pipeline.**  The whole-pipeline theorems of C04 / C15 /
+C17 are stated about `Pipeline.designMatrices` (every variable written in the formula is selected by
+the NA step); the driver executes `Pipeline.designMatricesModel` (the variables of the resolved
+model, as the code does).  The two are the same function on every formula, frame and policy for
+which the two readings select the same columns — i.e. unless every term of some variable of the
+frame is removed again (the case above). -/
+theorem C09_pipeline_readings_agree (table : Parser.Table) (ops : Resolver.OpTable)
+    (actions : List String) (formula : String) (env : Design.Env) (naAction : String)
+    (h : Pipeline.SameSelection table ops formula env.frame) :
+    Pipeline.designMatrices table ops actions formula env naAction =
+      Pipeline.designMatricesModel table ops actions formula env naAction :=
+  Pipeline.designMatrices_eq_model table ops actions formula env naAction h
 
 end FormulaeModel.C09
